@@ -43,6 +43,11 @@ def check_fixed_point(ctx, u, case, sig):
         ctx.ev(sig + ("str-exc",) if sig else None)
         ctx.fail("str_raises", case, f"{s!r}")
         return
+    if ctx.evaluations % 2 == 0:
+        from ..obs import prime
+
+        prime()  # history priming before the re-parse
+        ctx.count("primed_calls")
     u2 = guarded(URL, s)
     if is_exc(u2):
         ctx.ev(sig + ("reparse-exc",) if sig else None)
